@@ -275,6 +275,54 @@ static void op_parse(void)
   free(b);
 }
 
+/* ---------- C01: the error paths of esl_msafile_Open() (a name that is no file, a directory, the <env> directory list) ----------
+ *   openerr what=<missing|dir|envmissing|envfile> fmt=<f|auto> abc=<..> [sfx=<suffix>] [hex=<bytes: envfile>]
+ * answer: as `parse`: open=<status>[:msg|:nomsg|:noafp] [fmt= abc= rd=...]   (documented: eslENOTFOUND returns afp in an error state,
+ * afp->errmsg = the buffer's message, afp->abc NULL; the caller reports it and calls esl_msafile_Close()) */
+#include <sys/stat.h>
+static void op_openerr(void)
+{
+  const char *what = h_arg("what"), *fs = h_arg("fmt"), *as = h_arg("abc"), *sfx = h_arg("sfx");
+  int fmt = fmt_code(fs ? fs : "auto"), status, guess = 0;
+  int64_t n = 0; unsigned char *b = h_unhex(h_arg("hex") ? h_arg("hex") : "-", &n);
+  ESL_ALPHABET *abc = NULL, **byp = NULL; ESL_MSAFILE *afp = NULL;
+  char name[128], dir[128], full[300]; const char *env = NULL;
+  if (!what) what = "missing"; if (!as) as = "text";
+  if (!strcmp(as, "text")) byp = NULL;
+  else if (!strcmp(as, "guess")) { byp = &abc; guess = 1; }
+  else { abc = esl_alphabet_Create(abc_type(as)); byp = &abc; }
+  snprintf(name, sizeof(name), "h_msafile_%d.%s", (int) getpid(), sfx ? sfx : "dat");
+  snprintf(dir,  sizeof(dir),  "h_msafile_%d.d",  (int) getpid());
+  full[0] = 0; unlink(name);
+  if (!strcmp(what, "dir")) { mkdir(dir, 0700); snprintf(name, sizeof(name), "%s", dir); }
+  else if (!strcmp(what, "envmissing")) { setenv("H_MSAFILE_ENV", "/nonexistent-h-msafile-a:/nonexistent-h-msafile-b", 1); env = "H_MSAFILE_ENV"; }
+  else if (!strcmp(what, "envfile")) {
+    FILE *fp; char list[400];
+    mkdir(dir, 0700); snprintf(full, sizeof(full), "%s/%s", dir, name);
+    fp = fopen(full, "wb"); if (!fp) { perror("fopen"); exit(3); }
+    if (n > 0 && fwrite(b, 1, (size_t) n, fp) != (size_t) n) { perror("fwrite"); exit(3); }
+    fclose(fp);
+    snprintf(list, sizeof(list), "/nonexistent-h-msafile-a:%s", dir);
+    setenv("H_MSAFILE_ENV", list, 1); env = "H_MSAFILE_ENV";
+  }
+  status = esl_msafile_Open(byp, name, env, fmt, NULL, &afp);
+  sb_printf("open=%s", h_status(status));
+  if (status != eslOK) {
+    if (afp) { sb_puts(afp->errmsg[0] ? ":msg" : ":nomsg"); if (afp->abc) sb_puts(" abcset"); } else sb_puts(":noafp");
+    note_exception();
+  } else {
+    note_exception();
+    sb_printf(" fmt=%s abc=%s", fmt_name(afp->format), abc_name(afp->abc));
+    if (guess && afp->abc != abc) sb_puts(" abcmismatch");
+    read_all(afp, 64);
+  }
+  if (afp) esl_msafile_Close(afp);
+  if (full[0]) unlink(full);
+  rmdir(dir); unsetenv("H_MSAFILE_ENV");
+  if (abc) esl_alphabet_Destroy(abc);
+  free(b);
+}
+
 /* ---------- C03: build an MSA from op fields ---------- */
 /* split a comma (or other) separated list in place; returns count */
 static int split(char *s, char sep, char **out, int max)
@@ -582,6 +630,7 @@ static void h_op(void)
   else if (!strcmp(op, "rt"))    op_rt();
   else if (!strcmp(op, "fmt"))   op_fmt();
   else if (!strcmp(op, "reformat")) op_reformat();
+  else if (!strcmp(op, "openerr")) op_openerr();
   else { h_out("bad-op"); return; }
   scrub_stack();
   if (leak_check() > 0) sb_puts(" leak");
